@@ -330,7 +330,7 @@ func newProto(c *props.Ctx, sp *ssa.Package, fns []*ssa.Function, ci *flow.CallI
 			if !isSl {
 				return false
 			}
-			b, isB := sl.Elem().Underlying().(*types.Basic)
+			b, isB := sl.Elem().(*types.Basic) // plain int: a slice of a named state type (remembered node states) is another role
 			return isB && b.Kind() == types.Int
 		})
 		if pr.fDepV = unique("remembered dependency versions (the []int field Outdated() reads)", c); pr.fDepV == nil {
